@@ -46,10 +46,14 @@ def gen_goal(rng, case):
         a, b = rng.choice(ws), rng.choice(ws)
         return case["user"].replace("${%s}" % a, "${\0}").replace("${%s}" % b, "${%s}" % a).replace("${\0}", "${%s}" % b)
     t = rng.choice(STMT_GOALS if is_stmt else EXPR_GOALS)
+    if case.get("pkind") == "midline-stmt" and rng.random() < 0.6:
+        t = rng.choice(["h(${A})\nh(${B})", "z = ${A}\nz = ${B}\nh(z)"])      # several lines at a column > indentation
     names = ws if ws else []
     if rng.random() < 0.04:
         names = names + ["nosuch"]               # BadNameInCheckError when there is a match
     if not names:
+        if case.get("pkind") == "midline-stmt":
+            return "pass\nh()"
         return rng.choice(["pass"] if is_stmt else ["k", "g()"])
     a = rng.choice(names)
     b = rng.choice(names)
@@ -276,6 +280,33 @@ def spec_stmts(tree, pat, goal_stmts, exact, only=None, marks=None):
     return rw(tree), count[0]
 
 
+def semicolon_context_unusable(src, instances, goal_stmts, goal_text=""):
+    """a compound statement cannot follow `;` on a line, a compound statement or a comment followed by `; rest`
+    swallows the rest: goals with compound statements or comments are outside the property for instances that
+    share their line with other statements"""
+    import io
+    import tokenize
+
+    def compound(st):
+        return hasattr(st, "body")
+    try:
+        commented = any(t.type == tokenize.COMMENT for t in tokenize.generate_tokens(io.StringIO(goal_text).readline))
+    except (tokenize.TokenError, SyntaxError, IndentationError):
+        commented = "#" in goal_text
+    if not any(compound(st) for st in goal_stmts) and not commented:
+        return False
+    for (_s, nodes, _m) in instances:
+        if not (hasattr(nodes[0], "region") and hasattr(nodes[-1], "region")):
+            continue
+        s, e = nodes[0].region[0], nodes[-1].region[1]
+        before = src[src.rfind("\n", 0, s) + 1:s]
+        nl = src.find("\n", e)
+        after = src[e:nl if nl >= 0 else len(src)]
+        if before.strip() or after.split("#")[0].strip():
+            return True
+    return False
+
+
 def kept_outside(src, result, regions):
     """text outside the union of [s, e) regions appears unchanged and in order in result"""
     regs = sorted(regions)
@@ -364,6 +395,8 @@ def oracle(case, code, text, tree):
         return ("badname", "goal uses a wildcard the match does not bind but no BadNameInCheckError")
     if code == 2:
         return ("badname", "BadNameInCheckError although every goal wildcard is bound")
+    if is_stmt and semicolon_context_unusable(src, instances, goal_ast, goal_model(case["goal"])):
+        return ("goal-unusable", None)
     # a goal that cannot stand where the match stands (e.g. a call as assignment target) is outside the
     # property: the tree-level result is not a program
     try:
@@ -450,17 +483,41 @@ def _classify(case, tree, pat, goal_ast, exact, instances, is_stmt, expected, sh
         fit = insertion_fits(marked, plain, marks)
     except BadName:
         fit = None
-    if fit is True:
-        return "meaning"          # every inserted piece is fit for its position: parentheses cannot be the reason
+    # the harness's own rewriting with every inserted piece parenthesised is right, and rope's text is that
+    # rewriting up to parentheses and layout -- anything else wrong with the text (other regions replaced, other
+    # text inserted) is none of the two findings below
+    safe_ok = False
     safe_text = safe_rewrite_text(case, tree, pat, exact, is_stmt)
     if safe_text is not None and new_text is not None:
         try:
             safe = ast.parse(safe_text)
         except SyntaxError:
             safe = None
-        if safe is not None and expected.is_(safe) and modulo_parens(safe_text) == modulo_parens(new_text):
-            return "precedence"
-    return "meaning"
+        safe_ok = safe is not None and expected.is_(safe) and modulo_parens(safe_text) == modulo_parens(new_text)
+    if not safe_ok:
+        return "meaning"
+    if fit is not True:
+        return "precedence"       # CPython's printer needs parentheses around an inserted piece
+    if any(spans_lines_unbracketed(src, b) for (_s, _n, m) in instances for b in m.values()):
+        return "multiline-bound"  # bound code written on several lines without brackets of its own
+    return "meaning"              # every inserted piece is fit for its position and on one line
+
+
+def spans_lines_unbracketed(src, b):
+    if not hasattr(b, "region"):
+        return False
+    text = src[b.region[0]:b.region[1]]
+    if "\n" not in text:
+        return False
+    depth = 0
+    for i, ch in enumerate(text):          # brackets opened by the text itself (strings/comments ignored roughly)
+        if ch in "([{":
+            depth += 1
+        elif ch in ")]}":
+            depth -= 1
+        elif ch == "\n" and depth == 0:
+            return True
+    return False
 
 
 def traversal_windows(tree, pat, exact):
@@ -516,7 +573,8 @@ def safe_rewrite_text(case, tree, pat, exact, is_stmt, only=None):
                     continue
                 m = c19.bf_instance(pat, w, exact)
                 txt = "".join(("(" + src[m[t].region[0]:m[t].region[1]] + ")") if v else t for v, t in pieces)
-                indent = len(src[:s]) - len(src[:s].rstrip(" "))
+                line = src[src.rfind("\n", 0, s) + 1:s]
+                indent = len(line) - len(line.lstrip(" "))      # the indentation of the line the instance is on
                 lines = txt.split("\n")
                 txt = "\n".join([lines[0]] + [(" " * indent + ln) if ln.strip() else ln for ln in lines[1:]])
                 out.append(src[pos:s] + txt)
@@ -676,6 +734,7 @@ def run(ctx):
                 ctx.extra.get("restructure_cases_in_untouched_outside_expr_domain", 0) + nums[-2][0]
             ctx.extra["restructure_cases_with_expression_matches"] = \
                 ctx.extra.get("restructure_cases_with_expression_matches", 0) + nums[-1][0]
+    pending = []
     for idx, (case, r) in enumerate(zip(cases, results)):
         replay = {k: case[k] for k in REPLAY_KEYS}
         if r["error"] is not None:
@@ -708,14 +767,18 @@ def run(ctx):
                           "C19 restructuring (%s): %s; pattern %r goal %r" % (
                               r["oracle"][0], r["oracle"][1][:200], case["user"][:60], case["goal"][:60]))
         elif idx in mism:
-            ctx.violation(dict(replay, mismatch="restructured text differs from the model's (code %d)" % mism[idx],
-                               broken="correspondence RopeVerif.C19.Runner.run_rcase (model Restructure.restructure_text vs "
-                                      "rope/refactor/restructure.py _ChangeComputer); theorems about the text-level "
-                                      "model no longer speak about the code"),
-                          "C19 restructuring: model and rope disagree; pattern %r goal %r" % (case["user"][:60], case["goal"][:60]),
-                          no_input=True)
+            pending.append((idx, case, replay))      # reported after the failing inputs, so that they are not crowded out
         if ctx.too_many(8):
             break
+    for idx, case, replay in pending[:3]:
+        if ctx.too_many(10):
+            break
+        ctx.violation(dict(replay, mismatch="restructured text differs from the model's (code %d)" % mism[idx],
+                           broken="correspondence RopeVerif.C19.Runner.run_rcase (model Restructure.restructure_text vs "
+                                  "rope/refactor/restructure.py _ChangeComputer); theorems about the text-level "
+                                  "model no longer speak about the code"),
+                      "C19 restructuring: model and rope disagree; pattern %r goal %r" % (case["user"][:60], case["goal"][:60]),
+                      no_input=True)
     if not ctx.too_many(8):
         from harness import c19_prec
         pairs = []
